@@ -260,7 +260,7 @@ def arith (fi : Int → Int → Int) (ff : Float → Float → Float) (a b : Val
 
 def vlt (a b : Val) : Bool := if isFlt a || isFlt b then toF a < toF b else toI a < toI b
 
-/-- the Python functions the harness registers, by id: `add sub mul neg max2 max3 ite lt and not id five` -/
+/-- the Python functions the harness registers, by id: `add sub mul neg max2 max3 ite lt and not id dbl five` -/
 def applyOp (op : String) (args : List Val) : Option Val :=
   match op, args with
   | "add", [a, b] => some (arith (· + ·) (· + ·) a b)
@@ -274,6 +274,7 @@ def applyOp (op : String) (args : List Val) : Option Val :=
   | "and", [a, b] => some (if truthy a then b else a)
   | "not", [a] => some (.bool (!truthy a))
   | "id", [a] => some a
+  | "dbl", [a] => some (arith (· + ·) (· + ·) a a)      -- `lambda x: x + x`
   | "five", [] => some (.int 5)                       -- a zero-argument primitive (`five()`)
   | _, _ => none
 
